@@ -9,7 +9,7 @@ from .chrun import Cond, run_conditions, to_obligations, concrete_reach
 
 HEAD = '''# generated harness module (E1, definition order)
 from vf import pyharness as H, compharness as K
-H.setup(formatting_stub=False)
+H.setup(formatting_stub=False, int_str=True)
 TUPLES = %(tuples)r
 
 
